@@ -57,7 +57,10 @@ def _rows(m, drops, salt=0):
     U = m.Unit
     # built in feet or in inches (both exact), then partly re-displayed
     rows = [impl.make_row(time=float(k), distance=U.Foot(float(k)) if (k + salt) % 2 else U.Inch(12.0 * k),
-                          target_drop=U.Inch(12.0 * v) if (k + salt) % 2 else U.Foot(float(v)), flag=8)
+                          target_drop=U.Inch(12.0 * v) if (k + salt) % 2 else U.Foot(float(v)),
+                          # rows of an extra-data trajectory are of several kinds (range, zero crossings, Mach, closing row): the
+                          # danger space is about drops and distances, the kind of a row must not matter
+                          flag=8 if salt < 2 else [8, 2, 1, 4, 0, 8 | 2, 8][(k + salt + len(drops)) % 7])
             for k, v in enumerate(drops)]
     if salt % 2:
         _redisplay(m, rows, salt)
